@@ -13,15 +13,19 @@ import (
 )
 
 func determineCommonPrefix(prefix, key, delimiter string) *string {
-	prefixSegments := strings.Split(prefix, delimiter)
-	keySegments := strings.Split(key, delimiter)
-	if len(prefixSegments) >= len(keySegments) {
+	// The common prefix runs from the start of the key through the first
+	// occurrence of the delimiter after the prefix. Splitting prefix and key
+	// into delimiter-separated segments gets this wrong when the prefix ends
+	// inside a multi-character delimiter.
+	if delimiter == "" || !strings.HasPrefix(key, prefix) {
 		return nil
 	}
-	commonPrefix := ""
-	for idx := range prefixSegments {
-		commonPrefix += keySegments[idx] + delimiter
+	rest := key[len(prefix):]
+	idx := strings.Index(rest, delimiter)
+	if idx < 0 {
+		return nil
 	}
+	commonPrefix := prefix + rest[:idx+len(delimiter)]
 	return &commonPrefix
 }
 
